@@ -300,7 +300,7 @@ def main(argv=None):
     ck = Check("C20", argv)
     common.setup_impl_env()
     impl = Impl()
-    ck.prove()
+    ck.prove(extra_targets=["Bridge/BridgeConfig.v"], gen_kernels=["_merge"])
     have_driver = ck.driver()
     ck.run_witnesses(["w15"])
 
